@@ -31,7 +31,7 @@ def run(ck):
     np.seterr(all="ignore")
     rng = ck.rng
     thorough = ck.tier == "thorough"
-    N = 200 if thorough else 40
+    N = ck.n(40, 200)
     worst = {}
 
     def note(k, v):
